@@ -220,6 +220,9 @@ func loadEngine(repo string) (*Engine, error) {
 			e.targets[key] = &Target{Key: key, spec: fs, pkg: e.pkgByName(fs.Pkg)}
 			continue
 		}
+		if fs.External {
+			continue
+		}
 		if i := strings.Index(key, "@"); i >= 0 {
 			// case contract: same function, verified separately under its own precondition
 			base, ok := e.targets[key[:i]]
